@@ -23,6 +23,8 @@ DECIDED_R7 = ('Round 7: the container keeps the list object it is given; every e
 DECIDED = DECIDED + ' ' + DECIDED_R7
 DECIDED_R8 = ('Round 8: no test deciding the urlencoded branch compares the whole Content-Type value with a literal; the request is bound on every way out of _handle; every memoised accessor computed from the query has its key dropped for QUERY_STRING.')
 DECIDED = DECIDED + ' ' + DECIDED_R8
+DECIDED_R9 = ('Round 9: removing an environ key through the request is announced to the change listeners (d).')
+DECIDED = DECIDED + ' ' + DECIDED_R9
 NOT_DECIDED = ('encode -> parse equality for all pair lists (urllib.parse.unquote semantics); UTF-8 decoding of escapes is '
                'urllib behaviour.')
 ASSUMPTIONS = ["urllib.parse.unquote(s) with default errors='replace' raises nothing",
